@@ -20,6 +20,7 @@ mod fam_files;
 mod fam_options;
 mod fam_preproc;
 mod fam_repro;
+mod fam_rules;
 mod fam_scope;
 mod fam_snippet;
 mod fam_syntax;
@@ -100,6 +101,7 @@ pub fn make_family(name: &str) -> Option<Box<dyn Family>> {
         "scope" => Some(Box::new(fam_scope::Scope::default())),
         "aliaschain" => Some(Box::new(fam_scope::AliasChain::default())),
         "repro" => Some(Box::new(fam_repro::Repro::default())),
+        "rules" => Some(Box::new(fam_rules::Rules::default())),
         "wire" => Some(Box::new(fam_wire::Wire::default())),
         _ => None,
     }
